@@ -11,4 +11,6 @@ sys.path.insert(0, '.')
 from mirlib import facts, astlib
 print(facts.facts_dir())
 print(astlib.ast_path())
+from rules import selftest
+print(selftest.control_facts()[0])
 "
